@@ -118,6 +118,10 @@ type histOpts struct {
 	faults      map[int]string
 	// methods is what the provider's discovery document advertises as code_challenge_methods_supported
 	methods []string
+	// scale: unrelated cookies in the second browser, bytes added to every token, sub-second part of the clock
+	cookies int
+	bigTok  int
+	clockMs int
 }
 
 func genHistOpts(c *sim.Case) histOpts {
@@ -148,6 +152,9 @@ func genHistOpts(c *sim.Case) histOpts {
 	if ho.o.Logout && ho.o.Discovery && sim.Bool(c, "explicit-logout-uri") {
 		ho.o.LogoutURI = "http://sso.test/custom-logout"
 	}
+	ho.cookies = sim.Tail(c, "b1.cookies", 1, 45)
+	ho.bigTok = []int{0, 0, 0, 0, 2500, 6000}[sim.Pick(c, "big-tokens", 6)]
+	ho.clockMs = []int{0, 0, 1, 250, 700, 999}[sim.Pick(c, "clock.ms", 6)]
 	return ho
 }
 
@@ -161,12 +168,19 @@ func (ho histOpts) build(c *sim.Case, mons ...monitor) *H {
 	for k, v := range ho.faults {
 		w.Faults[k] = v
 	}
-	return newH(c, w, 3, mons...)
+	w.IdP.BigTokens = ho.bigTok
+	if ho.clockMs > 0 {
+		w.Clock.Advance(time.Duration(ho.clockMs) * time.Millisecond)
+	}
+	h := newH(c, w, 3, mons...)
+	h.crowdCookies(ho.cookies)
+	return h
 }
 
 func (ho histOpts) String() string {
 	return fmt.Sprintf("store=%s forwardAT=%v logout=%v discovery=%v prefix=%q abs=%v pkce-methods=%v idTTL=%v expires_in=%d noRefreshToken=%v faults=%v",
-		ho.o.Store, ho.o.AccessToken, ho.o.Logout, ho.o.Discovery, ho.o.CookiePrefix, ho.o.Abs, ho.methods, ho.idTTL, ho.expIn, ho.noRT, ho.faults)
+		ho.o.Store, ho.o.AccessToken, ho.o.Logout, ho.o.Discovery, ho.o.CookiePrefix, ho.o.Abs, ho.methods, ho.idTTL, ho.expIn, ho.noRT, ho.faults) +
+		fmt.Sprintf(" idle=%v cookies=%d bigTokens=%d clock+%dms", ho.o.Idle, ho.cookies, ho.bigTok, ho.clockMs)
 }
 
 // runWithFaults executes ops once cleanly (counting interception points), then again with a drawn fault plan.
@@ -211,7 +225,11 @@ func c01Random(c *sim.Case) {
 	if sim.Weighted(c, "refresh-prefix", 1, 2) == 1 {
 		// start with a session that has just outlived a token, so that the refresh path (and its fault points) is reached often
 		b := sim.Pick(c, "prefix.b", 2)
-		pre := []op{{K: "login", B: b, Target: "/a"}, {K: "advance", B: b, Rel: sim.PickStr(c, "prefix.rel", "idexp", "atexp"), D: time.Duration(1+sim.Pick(c, "prefix.off", 3)) * 500 * time.Millisecond}, {K: "nav", B: b, Target: "/a"}}
+		pre := []op{{K: "login", B: b, Target: "/a"}}
+		// one to six token lifetimes in a row: the n-th refresh of a session is reached as often as the first
+		for k, n := 0, 1+sim.Weighted(c, "prefix.lifetimes", 6, 2, 1, 1, 1, 1); k < n; k++ {
+			pre = append(pre, op{K: "advance", B: b, Rel: sim.PickStr(c, "prefix.rel", "idexp", "atexp"), D: time.Duration(1+sim.Pick(c, "prefix.off", 3)) * 500 * time.Millisecond}, op{K: "nav", B: b, Target: "/a"})
+		}
 		ops = append(pre, ops...)
 	}
 	if sim.Weighted(c, "idle-timeout", 2, 1) == 1 {
